@@ -49,6 +49,7 @@ def run(ctx):
     guard_new_query(ctx, facts)
     flow_status(ctx, facts)
     shard_status(ctx, facts)
+    dispatch(ctx, facts)
 
 
 def names(facts, adt):
@@ -421,3 +422,64 @@ def flow_status(ctx, facts):
     dom = b.dominators()
     idn = flow.find_calls(b, r"Transport::identity$")
     ctx.ob("FLOW-status", "leader-check-first", bool(idn) and all(flow.dominates(dom, idn[0][0], g) for g, _ in gs), "shard identity is checked before the state is read")
+
+
+# ---------------------------------------------------------------------------------------------
+DISPATCH = {
+    "helpers::HelperIdentity": {"ReceiveQuery": "new_query", "PrepareQuery": "prepare_helper", "QueryInput": "receive_inputs", "QueryStatus": "query_status", "CompleteQuery": "complete", "KillQuery": "kill"},
+    "sharding::ShardIndex": {"PrepareQuery": "prepare_shard", "QueryStatus": "shard_status", "CompleteQuery": "<helper handler>"},
+}
+PROCESSOR_OPS = {"new_query", "prepare_helper", "prepare_shard", "receive_inputs", "query_status", "shard_status", "complete", "kill"}
+
+
+def dispatch(ctx, facts):
+    ctx.rule("TABLE-dispatch: the request handlers of app::Inner route each RouteId to exactly its own Processor operation - MPC side: ReceiveQuery->new_query, PrepareQuery->prepare_helper, QueryInput->receive_inputs, QueryStatus->query_status, CompleteQuery->complete, KillQuery->kill; shard side: PrepareQuery->prepare_shard, QueryStatus->shard_status, CompleteQuery->the MPC handler; every other route reaches no Processor operation")
+    for ident, table in DISPATCH.items():
+        root = f"<app::Inner as helpers::transport::handler::RequestHandler<{ident}>>::handle"
+        b = next((x for x in facts.tree(root) if x.coroutine), None)
+        if b is None:
+            ctx.missing("TABLE-dispatch", root)
+            continue
+        ctx.count(bodies=1)
+        side = "mpc" if "Helper" in ident else "shard"
+        dom = b.dominators()
+        sw = None
+        for bb in sorted(b.live_blocks()):
+            t = b.term(bb)
+            if t["k"] == "switch":
+                e = flow.expr_of(b, t["o"])
+                if e[0] == "disc" and e[1][-1] == "route" and e[1][:2] in (("proj", ("upvar", "req")), ("upvar", "req")):
+                    sw = (bb, t)
+                    break
+                if e[0] == "disc" and "route" in str(e[1])[-12:] and "req" in str(e[1]):
+                    sw = (bb, t)
+                    break
+        if sw is None:
+            ctx.missing("TABLE-dispatch", f"{side}: match on req.route")
+            continue
+        variants = {str(v["discr"]): v["name"] for v in facts.adts["helpers::transport::routing::RouteId"]["variants"]}
+        arms = {variants[str(v)]: tgt for v, tgt in sw[1]["ts"] if str(v) in variants}
+        other = sw[1].get("else")
+        targets = set(arms.values()) | ({other} if other is not None else set())
+        def ops_in(tgt):
+            out = []
+            # blocks belonging to this arm only: dominated by its target and not by another arm's target
+            for bb, t in b.calls():
+                if not flow.dominates(dom, tgt, bb):
+                    continue
+                fn = F.callee(t)[0] or ""
+                m = re.search(r"query::processor::Processor::(\w+)$", fn)
+                if m and m.group(1) in PROCESSOR_OPS:
+                    out.append(m.group(1))
+                elif re.search(r"RequestHandler::handle$|RequestHandler<helpers::HelperIdentity>>::handle$", fn) or ("RequestHandler" in fn and fn.endswith("::handle")):
+                    out.append("<helper handler>")
+            return sorted(set(out))
+        for name in sorted(set(arms) | set(table)):
+            tgt = arms.get(name)
+            want = table.get(name)
+            got = ops_in(tgt) if tgt is not None and list(arms.values()).count(tgt) == 1 and tgt != other else ([] if tgt is None or tgt == other else ops_in(tgt))
+            ok = got == ([want] if want else [])
+            ctx.ob("TABLE-dispatch", f"{side}:{name}", ok, f"{name} -> {want or 'rejected'}" if ok else f"{name} is dispatched to {got or 'nothing'}, expected {want or 'no Processor operation'}", site_of(b, tgt) if tgt is not None else site_of(b, sw[0]))
+        if other is not None:
+            got = ops_in(other) if other not in arms.values() else []
+            ctx.ob("TABLE-dispatch", f"{side}:other-routes", not got, "routes without an entry reach no Processor operation" if not got else f"routes outside the table reach {got}", site_of(b, other))
